@@ -3,7 +3,7 @@
 SEED=${1:-1}; TIER=${2:-quick}
 cd "$(dirname "$0")/.."
 for i in 01 02 03 04 05 06 07 08 09 10 11 12 13 14 15 16 17 18 19 20; do
-  out=$(VERIF_SEED=$SEED VERIF_NO_EVIDENCE=${NOEV:-1} ./check C$i --tier $TIER 2>&1); rc=$?
+  if [ "${NOEV:-1}" = "0" ]; then out=$(VERIF_SEED=$SEED ./check C$i --tier $TIER 2>&1); rc=$?; else out=$(VERIF_SEED=$SEED VERIF_NO_EVIDENCE=1 ./check C$i --tier $TIER 2>&1); rc=$?; fi
   echo "rc=$rc $(echo "$out" | tail -1)"
   [ $rc -ne 0 ] && echo "$out" | grep -E "^---|VIOLATION|HARNESS|Error" | head -5
 done
